@@ -318,7 +318,7 @@ func encodeTop(vc *VC, fn *ssa.Function, d *Decl) []inputVar {
 		}
 	}
 	for _, cl := range d.Get("at-store") {
-		if !fr.atCallSeen[cl] {
+		if !fr.atCallSeen[cl] && !strings.HasSuffix(firstWord(strings.TrimSpace(cl.Text)), "?") {
 			vc.oblige("at-store-missing", sanitizeLit(firstWord(strings.TrimSpace(cl.Text))), "true", "false", "the function no longer stores into the field this clause is about: at-store "+cl.Text, fr.props, posOf(fn, fn.Pos()))
 		}
 	}
